@@ -155,7 +155,18 @@ impl ReadBackend for CachedBackend {
             // read full file, save to cache and return partial content
             match self.be.read_full(tpe, id) {
                 Ok(data) => {
-                    let range = offset as usize..(offset + length) as usize;
+                    let range = offset as usize..offset as usize + length as usize;
+                    if range.end > data.len() {
+                        return Err(RusticError::new(
+                            ErrorKind::Backend,
+                            "The file `{id}` of type `{tpe}` is too short: it has `{size}` bytes, but `{length}` bytes at offset `{offset}` were requested.",
+                        )
+                        .attach_context("id", id.to_string())
+                        .attach_context("tpe", tpe.to_string())
+                        .attach_context("size", data.len().to_string())
+                        .attach_context("length", length.to_string())
+                        .attach_context("offset", offset.to_string()));
+                    }
                     if let Err(err) = self.cache.write_bytes(tpe, id, &data.clone().into()) {
                         warn!(
                             "Error in cache backend writing {tpe:?},{id}: {}",
